@@ -507,8 +507,9 @@ func (b Builder) PyUint64(uintVal Expr) (ret Expr) {
 
 // PyStr returns a py-style string constant expression.
 func (b Builder) PyStr(v string) Expr {
-	fn := b.Pkg.pyFunc("PyUnicode_FromString", b.Prog.tyPyUnicodeFromString())
-	return b.Call(fn, b.CStr(v))
+	// data and length are passed explicitly (as for non-constant strings): a Go
+	// string literal may contain NUL, which a C string constant would cut off
+	return b.PyStrExpr(b.Str(v))
 }
 
 // PyStrExpr(str string) *Object
